@@ -838,6 +838,39 @@ theorem textOrTag_print (arg : Expr) (dirs : List Directive) (hC : CmdCanon ff p
   rw [fbind_ok hbt]
   rfl
 
+/-- `itemList(itemEOF)` — the top level of `parse.SoyFile` — on `{`, the tokens of a printed print command, `}`, EOF:
+    the list with the one print node -/
+theorem itemList_print (arg : Expr) (dirs : List Directive) (hC : CmdCanon ff pf arg dirs) (ef fuel : Nat)
+    (hE : ExprFuel ff ef arg dirs) (hf : ∀ d ∈ dirs, d.args.length + dirs.length + 1 < fuel) (hf' : dirs.length < fuel)
+    (st : FState)
+    (hst : At st.p (⟨.tLeftDelim, [123]⟩ :: (unsp (piecesBody ff arg dirs) ++ [tRD, ⟨.tEOF, []⟩]))) :
+    ∃ lpos pos e' ds' st', itemListLoop pf ef (fuel + 3) [.tEOF] none .nil st =
+        .ok (.list lpos (.cons (Node.print pos e' ds') .nil), st') ∧
+      erase e' = erase arg ∧ ds'.map eraseDir = dirs.map eraseDir := by
+  obtain ⟨k, rfl⟩ : ∃ k, fuel = k + 1 := ⟨fuel - 1, by omega⟩
+  obtain ⟨ld, p1, hn1, hlt, _, hj1⟩ := fnext_at hst
+  obtain ⟨pos, e', ds', p2, hto, he, hd, ha⟩ := textOrTag_print ff pf T arg dirs hC ef (k + 1) hE hf hf' [.tEOF]
+    (by decide) (by decide) ld hlt [⟨.tEOF, []⟩] { st with p := p1 } (by simpa using hj1.at)
+  obtain ⟨eo, p3, hn2, het, _, _⟩ := fnext_at (st := { st with p := p2 }) ha
+  have het' : eo.typ = .tEOF := het
+  have hun : textOrTag pf ef (k + 1 + 1) eo [.tEOF] { st with p := p3 } = .ok ((none, true), { st with p := p3 }) := by
+    unfold textOrTag
+    simp only
+    rw [fbind_ok (skipComments_id k eo _ (by rw [het']; decide))]
+    simp only [het']
+    rfl
+  refine ⟨ld.pos, pos, e', ds', { st with p := p3 }, ?_, he, hd⟩
+  unfold itemListLoop
+  rw [fbind_ok hn1]
+  simp only
+  rw [fbind_ok hto]
+  simp only [Bool.false_eq_true, if_false]
+  unfold itemListLoop
+  rw [fbind_ok hn2]
+  simp only
+  rw [fbind_ok hun]
+  rfl
+
 end
 
 /-! ## from bytes to the print node, and injectivity -/
@@ -889,6 +922,56 @@ theorem print_cmd_injective_bytes (a b : Expr) (da db : List Directive) (hNa : C
   injection hp1 with hp1
   simp only [Prod.mk.injEq, Node.print.injEq] at hp1
   obtain ⟨⟨_, rfl, rfl⟩, _⟩ := hp1
+  exact ⟨by rw [← he1, ← he2], by rw [← hd1, ← hd2]⟩
+
+end
+
+/-! ## the FILE -/
+
+section
+open SoyVerif.Model.FileParser (Node parseSource parseFile)
+variable (ff : UInt64 → Bytes) (pf : Bytes → Option UInt64) (LT : LexTableOK) (T : TableOK)
+include LT T
+
+/-- C17 for PRINT COMMANDS, from bytes to tree, FILE level: `parse.SoyFile` (lexer ∘ parser, `parseSource`) on the
+    text `PrintNode.String()` writes returns the file whose node list is exactly the one print node, and that node is
+    the printed one modulo positions — the expression, and every directive with its name and its arguments.
+    (The frame is the one of C15c's `body_source_spec`: the model's `parse.SoyFile` does not ask for a
+    `{namespace}`/`{template}` around the body — neither does the code: parse.SoyFile is `itemList(itemEOF)`.) -/
+theorem print_cmd_file_roundtrip (arg : Expr) (dirs : List Directive) (hN : CmdOk ff arg dirs)
+    (hC : CmdCanon ff pf arg dirs) :
+    ∃ pos e' ds', parseSource pf (printPrint ff arg dirs) = .ok [Node.print pos e' ds'] ∧
+      erase e' = erase arg ∧ ds'.map eraseDir = dirs.map eraseDir := by
+  obtain ⟨items, hl, ht⟩ := lex_print_cmd ff LT arg dirs hN
+  have hlen : (unsp (piecesBody ff arg dirs)).length ≤ items.length := by
+    have := congrArg List.length ht
+    simp at this; omega
+  obtain ⟨f1, f2, f3⟩ := fuel_ok ff arg dirs items.length hlen
+  have hE : ExprFuel ff (FileParser.exprFuel items) arg dirs := by
+    simp only [FileParser.exprFuel, Parser.fuelFor]
+    exact ⟨by have := f1.1; omega, fun d hd a ha => by have := f1.2 d hd a ha; omega⟩
+  obtain ⟨lpos, pos, e', ds', st', hrun, he, hd⟩ := itemList_print ff pf T arg dirs hC (FileParser.exprFuel items)
+    (8 * items.length + 61) hE (fun d hd => by have := f2 d hd; omega) (by omega) { p := initState items }
+    (by have := at_init items; rw [ht] at this; simpa [tRD] using this)
+  refine ⟨pos, e', ds', ?_, he, hd⟩
+  unfold parseSource
+  rw [hl]
+  simp only
+  unfold parseFile
+  simp only [StateT.run, FileParser.fuelFor]
+  rw [hrun]
+  rfl
+
+/-- two print commands whose texts `parse.SoyFile` reads … the same FILE text means the same command -/
+theorem print_cmd_file_injective (a b : Expr) (da db : List Directive) (hNa : CmdOk ff a da) (hNb : CmdOk ff b db)
+    (hCa : CmdCanon ff pf a da) (hCb : CmdCanon ff pf b db)
+    (h : parseSource pf (printPrint ff a da) = parseSource pf (printPrint ff b db)) :
+    erase a = erase b ∧ da.map eraseDir = db.map eraseDir := by
+  obtain ⟨p1, e1, d1, h1, he1, hd1⟩ := print_cmd_file_roundtrip ff pf LT T a da hNa hCa
+  obtain ⟨p2, e2, d2, h2, he2, hd2⟩ := print_cmd_file_roundtrip ff pf LT T b db hNb hCb
+  rw [h1, h2] at h
+  simp only [Except.ok.injEq, List.cons.injEq, Node.print.injEq, and_true] at h
+  obtain ⟨_, rfl, rfl⟩ := h
   exact ⟨by rw [← he1, ← he2], by rw [← hd1, ← hd2]⟩
 
 end
